@@ -254,3 +254,26 @@ example : (match decodeCommand true Generated.msgTables rootPath (initSt [0x80, 
   decide +kernel
 
 end C09
+
+/-! ### every stream, no hypothesis -/
+
+namespace C09
+
+/-- **C09 for EVERY input, either mode**: the stream decode of any byte string — well-formed or not, complete or cut short, whatever
+its outcome — is the iteration of its messages' own decodes (`iterMsgs`, TpmProofs/Shift.lean): the next command decoded on its own
+from a fresh state on the remaining input, its response decoded on its own on what the command left, under the command's code and
+the encrypt flag of the command's sessions, and so on — same outcome, same final position, same events in the same order (stamps,
+and region ids inside warnings and errors, moved to where the message stands).  Message boundaries are what each decode leaves. -/
+theorem c09_every_stream (abort : Bool) (x : List Byte) :
+    projR (runWalker abort Generated.msgTables .stream x) = iterMsgs abort Generated.msgTables rootPath (x.length + 1) x 0 [] := by
+  simpa [runWalker, initSt] using stream_is_iteration abort Generated.msgTables rootPath (x.length + 1) x 0 [] []
+
+/-- not vacuous, and the iteration computes (kernel-evaluated): a Startup exchange followed by a command cut short after its tag ends
+`depleted` at offset 24 in strict mode -/
+example : (match iterMsgs true Generated.msgTables rootPath 30
+      [0x80, 0x01, 0, 0, 0, 0x0c, 0, 0, 0x01, 0x44, 0, 0, 0x80, 0x01, 0, 0, 0, 0x0a, 0, 0, 0, 0, 0x80, 0x01] 0 [] with
+    | .error (.depleted, p, _) => p
+    | _ => 0) = 24 := by
+  decide +kernel
+
+end C09
